@@ -18,7 +18,7 @@ def run(ctx):
     quick = ctx.tier == "quick"
     ctx.build_harness()
     ctx.tlc_must_pass("MC_Generator", "MC_Generator", timeout=900)
-    r = gencheck.run_gen(ctx, 60 if quick else 1500)
+    r = gencheck.run_gen(ctx, 60 if quick else 6000)
     for d in r["diags"]["rend"]:
         if d.get("diag") == "gen":
             e = d.get("ev", {})
